@@ -20,7 +20,7 @@ Lines (tab separated):
   K acct:denom:amount        P asset:twa
 ExtB := `-` (error) | `!` (panic) | dI:dR.   The model is re-synchronised to the real state after every line.
 
-Monitors (evaluated on the REAL state projection): total_lend total_borrowed total_stable ltv pool_funds pledged_safe, and
+Monitors (evaluated on the REAL state projection): total_lend total_borrowed total_stable ltv ltv_exact pool_funds pledged_safe, and
 total_lend_orphaned. The three book monitors compare, per (pool, asset), the GAP between the published total and the sum over
 positions before and after the line and fire when a gap changes to a non-zero value — so a mismatch that is already there (a known
 finding earlier in the history) neither repeats on later lines nor hides a new cause. `total_lend_orphaned` replaces `total_lend` on a
@@ -204,6 +204,24 @@ def ltvHolds (cfg : Cfg) (s : State) (b : Borrow) (newInter : Bool) : Bool :=
         else true
       main && bridge
 
+/-- the same decision in its exact integer form (`ExactLtv`, Props/C08 `ltv_exact`): evaluated on the real accepted operation -/
+def ltvExactHolds (cfg : Cfg) (s : State) (b : Borrow) (newInter : Bool) : Bool :=
+  match cfg.pair? b.pairId with
+  | none => false
+  | some pair =>
+    match cfg.rates? pair.assetIn with
+    | none => false
+    | some rates =>
+      let collAsset := match cfg.rates.find? (fun r => r.cAsset == b.inDenom) with | some r => r.asset | none => 0
+      let ltv := if pair.eMode then rates.eLtv else rates.ltv
+      let main := exactLtvOn cfg s.prices ltv b.amountIn collAsset (b.amountOut + Dec.truncateInt b.interest) pair.assetOut
+      let bridge := if newInter then
+          match cfg.rates? b.brDenom with
+          | none => false
+          | some rt => exactLtvOn cfg s.prices rt.ltv b.bridged b.brDenom b.amountOut pair.assetOut
+        else true
+      main && bridge
+
 /-- the borrow an accepted borrow-type message created or topped up -/
 def touchedBorrow (pre post : State) (u pairId : Nat) : Option (Borrow × Bool) :=
   if post.borrowCtr > pre.borrowCtr then (getBorrow post.borrows post.borrowCtr).map (·, true)
@@ -213,7 +231,8 @@ def touchedBorrow (pre post : State) (u pairId : Nat) : Option (Borrow × Bool) 
 
 def monBorrow (cfg : Cfg) (pre post : State) (u : Nat) (b : Borrow) (isNew : Bool) (dOut : Nat) (y : Int) : List String :=
   let inter := match cfg.pair? b.pairId with | some p => p.inter | none => false
-  let m1 := if ltvHolds cfg post b (isNew && inter) then [] else ["ltv"]
+  let m1 := (if ltvHolds cfg post b (isNew && inter) then [] else ["ltv"]) ++
+            (if ltvExactHolds cfg post b (isNew && inter) then [] else ["ltv_exact"])
   let m2 := match cfg.pair? b.pairId with
     | none => ["pool_funds"]
     | some pair =>
